@@ -16,7 +16,7 @@ add("C12", E1,
     "Trusted: the 20-line brute-force covering/validity oracle; clean host bits in VRPs; AS_SET-tail origin accepted as NONE or local AS.",
     "runtime monitoring: reference-model oracle over generated inputs and histories (debug+release, Miri slice)")
 add("C01", E2,
-    "Runtime monitor: real TableManager + real PeerSession (on_established, handle_prefix_update, do_route_refresh, flush_tx) over a loopback TCP pair; seeded histories of announce / withdraw / peer-down / GR stale+purge / LLGR mark+purge / next-hop flap / export-policy change + soft reset out / import-policy change + soft reset in / route refresh, interleaved with partial event delivery and flushes, for all 5 neighbour roles, Add-Path send-max 1-3, 1/2/4 shards, observer optionally a source itself. Bytes read from the client socket are decoded by the peer-side codec into a mirror Adj-RIB-In; at each quiescent check point the mirror must equal what a brand-new session with identical parameters is sent (which then becomes the next observer). Failing histories are delta-debugged. A quarter of the histories are concurrent (RIB operations from up to three source threads with delay injection while the observer keeps delivering and flushing); in half of those the observing neighbour's session comes up (initial dump + channel registration) in the middle of a burst on a populated RIB.",
+    "Runtime monitor: real TableManager + real PeerSession (on_established, handle_prefix_update, do_route_refresh, flush_tx) over a loopback TCP pair; seeded histories of announce / withdraw / peer-down / GR stale+purge / LLGR mark+purge / next-hop flap / export-policy change + soft reset out / import-policy change + soft reset in / route refresh, interleaved with partial event delivery and flushes, for all 5 neighbour roles, Add-Path send-max 1-3, 1/2/4 shards, observer optionally a source itself. Bytes read from the client socket are decoded by the peer-side codec into a mirror Adj-RIB-In; at each quiescent check point the mirror must equal what a brand-new session with identical parameters is sent (which then becomes the next observer). Failing histories are delta-debugged. A quarter of the histories are concurrent (RIB operations from up to three source threads with delay injection while the observer keeps delivering and flushing); in half of those the observing neighbour's session comes up (initial dump + channel registration) in the middle of a burst on a populated RIB. End-to-end part (c01e): the observing neighbour is a real session (Global::add_peer -> loopback TCP -> accept_connection -> PeerSession::run on a multi-thread runtime), so delivery and flushing are scheduled by the real run_select loop; the scripted remote end (repo codec) folds every UPDATE it reads; quiescent points by a sentinel-prefix barrier; at each judged point the connection is closed and a second real session for the same neighbour must be sent exactly the mirror. Shapes: sequential and concurrent sources, session up during a burst, a remote end that stops reading against 4 KB socket buffers (blocked flushes), hold time 3 s (KEEPALIVE interleaving), ROUTE-REFRESH from the wire.",
     "Trusted: the peer-side decode (repo codec, negotiate(remote,local)) and the quiescence procedure (KEEPALIVE sentinel through the same socket). Sequential histories; source peers are TableManager calls in the daemon's own call order.",
     "runtime monitoring: differential oracle (incremental view vs fresh-session dump) over generated histories with delivery/flush interleavings")
 add("C02", E1,
@@ -56,7 +56,7 @@ add("C07", E2,
     "Trusted: the reference FSM written from the statement; anything the statement does not demand is counted unjudged.",
     "runtime monitoring: exhaustive bounded input-sequence enumeration against a lock-step reference model")
 add("C08", E2,
-    "Runtime monitor: timed input sequences (advance virtual time, OPEN / KEEPALIVE / UPDATE / ROUTE-REFRESH arrival, update-sent) for all 25 hold-time pairs of {0,3,9,90,65535}^2, exhaustively to depth 6 (quick) / 8 (thorough) plus random; the FSM's SetHoldTimer / SetKeepaliveTimer / SessionDown outputs are interpreted by a virtual-time transcription of the driver's timer handling (apply_outputs / flush_tx / run_select); clauses negotiated (min, /3), re-arm (exactly on KEEPALIVE/UPDATE), expiry-iff, zero-disables. Thorough cross-checks five real PeerSessions over loopback (wall-clock, confirm-only).",
+    "Runtime monitor: timed input sequences (advance virtual time, OPEN / KEEPALIVE / UPDATE / ROUTE-REFRESH arrival, update-sent) for all 25 hold-time pairs of {0,3,9,90,65535}^2, exhaustively to depth 6 (quick) / 8 (thorough) plus random; the FSM's SetHoldTimer / SetKeepaliveTimer / SessionDown outputs are interpreted by a virtual-time transcription of the driver's timer handling (apply_outputs / flush_tx / run_select); clauses negotiated (min, /3), re-arm (exactly on KEEPALIVE/UPDATE), expiry-iff, zero-disables. Thorough cross-checks five real PeerSessions over loopback (wall-clock, confirm-only). Real-time part (c08b): 240 real sessions (accept_connection + PeerSession::run) run concurrently with scripted remote ends and small hold-time pairs; measured at the remote end with a monotonic clock; verdicts are sound under load: early expiry (NOTIFICATION read less than the negotiated hold after the remote end started writing its last message), any teardown or second KEEPALIVE with negotiated 0, wrong NOTIFICATION code; 'late' verdicts (no teardown, keepalive gap) only with a heartbeat proof that the runtimes were responsive, otherwise counted.",
     "Trusted: the ~60-line virtual-time transcription of the driver's timer handling (tokio test-util is not enabled, so real timers cannot be paused).",
     "runtime monitoring: virtual-time trace checker over exhaustively enumerated timed input sequences")
 add("C09", E2,
